@@ -262,7 +262,7 @@ def _same_item(x, y):
     return len(x) == len(y) and x[:-1] == y[:-1] and _same_style(x[-1], y[-1])
 
 
-def _rand_segments(rng, newlines=True, controls=True):
+def _rand_segments(rng, newlines=True, controls=True, oddities=False):
     _, segment, _ = _mods()
     Segment = segment.Segment
     styles = _styles()
@@ -275,6 +275,10 @@ def _rand_segments(rng, newlines=True, controls=True):
             continue
         t = S.free_string(rng, rng.choice([0, 1, 3, 8, 15]), w, space=0.15,
                           newline=0.12 if newlines else 0.0)
+        if oddities and t and rng.random() < 0.25:
+            # characters str.splitlines() breaks at although they are not line feeds (a segment is split at "\n" only)
+            k = rng.randint(0, len(t))
+            t = t[:k] + rng.choice(S.SEPARATOR_ODDITIES + ["\r", "\r\n", "\x0b", "\x0c", "\n\r"]) + t[k:]
         segs.append(Segment(t, rng.choice(styles)))
     return segs
 
@@ -490,7 +494,7 @@ def wl_set_shape(ctx, rng, case_no):
 def wl_simplify_split(ctx, rng, case_no):
     _, segment, _ = _mods()
     Segment = segment.Segment
-    segs = _rand_segments(rng)
+    segs = _rand_segments(rng, oddities=True)
     # simplify: same per-character (char, style) sequence, control segments stay apart
     out = list(Segment.simplify(list(segs)))
     ctx.count("mon.simplify")
